@@ -126,6 +126,10 @@ class Folder:
                 base = self.fold(e.value)
                 if isinstance(base, Abstract) and hasattr(base, e.attr) and not e.attr.startswith("__"):
                     return getattr(base, e.attr)
+                if type(base).__name__ == "AObj":
+                    from .absint import aobj_member
+
+                    return aobj_member(self, base, e.attr)
                 if isinstance(base, tuple) and hasattr(base, "_fields") and e.attr in base._fields:
                     return getattr(base, e.attr)
                 if d.startswith("self.") and d.count(".") == 1 and self.cls is not None and self.repo is not None:
@@ -147,6 +151,10 @@ class Folder:
                 return base[e.attr]
             if isinstance(base, Abstract) and hasattr(base, e.attr) and not e.attr.startswith("__"):
                 return getattr(base, e.attr)
+            if type(base).__name__ == "AObj":
+                from .absint import aobj_member
+
+                return aobj_member(self, base, e.attr)
             raise Unfoldable(unparse(e))
         if isinstance(e, ast.BinOp):
             l, r = self.fold(e.left), self.fold(e.right)
@@ -314,6 +322,8 @@ class Folder:
             # a module/class level constant expression; fold it in its own module
             owner = self._owner_module(e)
             return Folder(self.env, self.repo, owner, None, self.hook).fold(r)
+        if isinstance(r, ClassInfo):
+            return r  # a class of the model, as a value (e.g. chosen by a conditional expression)
         if isinstance(r, External):
             if r.dotted in ("builtins.True", "builtins.False", "builtins.None"):
                 return {"True": True, "False": False, "None": None}[r.dotted.split(".")[1]]
@@ -373,6 +383,13 @@ class Folder:
             if isinstance(recv, Abstract) and callable(getattr(recv, e.func.attr, None)):
                 kw = {k.arg: self.fold(k.value) for k in e.keywords if k.arg}
                 return getattr(recv, e.func.attr)(*[self.fold(a) for a in args], **kw)
+            if type(recv).__name__ == "AObj":
+                from .absint import aobj_member
+
+                bm = aobj_member(self, recv, e.func.attr)
+                if type(bm).__name__ == "_BoundMethod":
+                    return bm.call(self, [self.fold(a) for a in args], {k.arg: self.fold(k.value) for k in e.keywords if k.arg})
+                raise Unfoldable(unparse(e))
             if recv is not NotImplemented and not e.keywords:
                 m = e.func.attr
                 if isinstance(recv, (frozenset, set)) and m in ("union", "intersection", "difference", "issubset", "issuperset", "isdisjoint", "copy"):
@@ -489,6 +506,11 @@ class Folder:
             pyk = {"int": int, "bool": bool, "str": str, "float": float, "fractions.Fraction": Fraction, "Fraction": Fraction, "set": (set, frozenset), "frozenset": frozenset, "list": list, "tuple": tuple, "dict": dict}
             if all(k in pyk for k in kn) and not isinstance(v, Sym):
                 return any(isinstance(v, pyk[k]) for k in kn)  # type: ignore
+            if isinstance(v, Abstract) and isinstance(getattr(v, "_isa_", None), (set, frozenset)):
+                return any((k or "?").split(".")[-1] in v._isa_ for k in kn)
+            if type(v).__name__ == "AObj" and self.repo is not None:
+                names = {getattr(b, "name", None) or getattr(b, "dotted", "").split(".")[-1] for b in self.repo.mro(v._cls_)}
+                return any((k or "?").split(".")[-1] in names for k in kn)
             raise Unfoldable(unparse(e))
         # a local lambda / a private expression helper of the repository (single returned expression)
         fv = None
